@@ -1,12 +1,14 @@
 import HexModel.Wire
+import HexModel.Parse
 /-
 The line-protocol driver: one operation per line in, canonical output lines out.
 -/
 namespace Hex.Driver
-open Hex Hex.Wire
+open Hex Hex.Wire Hex.Parse
 
 structure DState where
   mgr : Option (Manager Float) := none
+  ind : Option (IndState Float) := none
 
 def parseCfg (ps : List (String × String)) : PyM MgrCfg := do
   let tf ← match param ps "tf" with
@@ -39,6 +41,35 @@ def arith (toks : List String) : String :=
   | "max" :: xs => match Num.maxList (nums xs) with | some r => showNum r | none => "bad"
   | "min" :: xs => match Num.minList (nums xs) with | some r => showNum r | none => "bad"
   | _ => "bad"
+
+def indOp (st : DState) (r : PyM (IndState Float)) : DState × List String :=
+  match r with
+  | .ok s => ({ st with ind := some s }, ["ok"])
+  | .error e => ({ st with ind := none }, [s!"err {e}"])
+
+def showRes (r : PyM (Val Float)) : String :=
+  match r with
+  | .ok v => showVal v
+  | .error e => s!"err {e}"
+
+/-- read-only accessors of an indicator object -/
+def indAcc (s : IndState Float) (what : String) (ps : List (String × String)) : String :=
+  let nm : String := (param ps "name").getD s.tree.name
+  let idx : Option Int := (param ps "idx").bind String.toInt?
+  let x := s.ctx
+  match what with
+  | "name" => s.tree.name
+  | "active" => toString s.active
+  | "has_reading" => match s.hasReading with
+    | .ok b => toString b
+    | .error e => s!"err {e}"
+  | "reading" => showRes (x.reading nm idx)
+  | "prev_reading" => showRes (x.prevReading nm)
+  | "as_list" => " ".intercalate ((s.asList (param ps "name")).map showVal)
+  | "reading_count" => toString (readingCount s.mgr.candles nm)
+  | "reading_period" => toString (x.readingPeriod (pInt ps "period" 1) nm idx)
+  | "candles_sum" => showRes (x.candlesSum (pInt ps "length" 1) nm idx)
+  | _ => "bad-acc"
 
 def step (st : DState) (line : String) : DState × List String :=
   let toks := (line.splitOn " ").filter (· ≠ "")
@@ -74,6 +105,51 @@ def step (st : DState) (line : String) : DState × List String :=
       | .ok cs => ({ st with mgr := some { m with candles := cs } }, ["ok"])
       | .error e => ({ st with mgr := none }, [s!"err {e}"])
     | none => (st, ["bad-op"])
+  | "ind" :: rest =>
+    let (ps, rest) := splitParams rest
+    match parseInd ps, (param ps "n").bind String.toNat? with
+    | some tree, some n =>
+      match parseCandles n rest with
+      | none => (st, ["bad-op"])
+      | some (cs, _) =>
+        match (do let cfg ← parseMgrCfg ps; IndState.init tree cfg cs) with
+        | .ok s => ({ st with ind := some s }, [s!"ok name={s.tree.name}"])
+        | .error e => ({ st with ind := none }, [s!"err {e}"])
+    | _, _ => (st, ["bad-op"])
+  | "iapp" :: rest =>
+    let (ps, rest) := splitParams rest
+    match st.ind, (param ps "n").bind String.toNat? with
+    | some s, some n =>
+      match parseCandles n rest with
+      | none => (st, ["bad-op"])
+      | some (cs, _) => indOp st (s.append cs)
+    | _, _ => (st, ["bad-op"])
+  | "icalc" :: _ =>
+    match st.ind with
+    | some s => indOp st s.calculate
+    | none => (st, ["bad-op"])
+  | "icidx" :: rest =>
+    let (ps, _) := splitParams rest
+    match st.ind, (param ps "s").bind String.toInt? with
+    | some s, some a => indOp st (s.calculateIndex a ((param ps "e").bind String.toInt?))
+    | _, _ => (st, ["bad-op"])
+  | "ipurge" :: _ =>
+    match st.ind with
+    | some s => ({ st with ind := some s.purge }, ["ok"])
+    | none => (st, ["bad-op"])
+  | "irecalc" :: _ =>
+    match st.ind with
+    | some s => indOp st s.recalculate
+    | none => (st, ["bad-op"])
+  | "isnap" :: _ =>
+    match st.ind with
+    | some s => (st, snapLines s.mgr.candles)
+    | none => (st, ["noind"])
+  | "iacc" :: what :: rest =>
+    let (ps, _) := splitParams rest
+    match st.ind with
+    | some s => (st, [indAcc s what ps])
+    | none => (st, ["noind"])
   | "msnap" :: _ =>
     match st.mgr with
     | some m => (st, snapLines m.candles)
